@@ -6,6 +6,7 @@
    matrices are universally quantified. *)
 From Coq Require Import List Arith Bool String.
 From BV Require Import Algebra.Mat Algebra.OpLang Algebra.PotLang Algebra.OpProofs Algebra.PotProofs.
+From BV Require Import Algebra.DiscLang Algebra.DiscProofs.
 From BVgen Require Import OpClasses.
 Import ListNotations.
 
@@ -105,3 +106,58 @@ Theorem C14_scaled_potential_points_refuted : forall (A : Type) (r0 r1 : A) (rop
        (fun o : pop A => pprop A patoms PB_pinned o "evaluation_points"%string) = Err AttributeError.
 Proof. exact pinned_scaled_points_attribute_error. Qed.
 Print Assumptions C14_scaled_potential_points_refuted.
+
+(* discrete operators: for every conformable tree of Scaled / Sum / Product operators over arbitrary matrices, the
+   constructors accept it, to_dense is the matrix expression and _matvec(x) = to_dense() x  (matmat: column by column) *)
+Theorem C14_discrete_algebra : forall (A : Type) (r0 r1 : A) (radd rmul rsub : A -> A -> A) (ropp : A -> A),
+  ring_theory r0 r1 radd rmul rsub ropp eq -> forall e : dspec A, swf A r0 radd rmul e = true ->
+  dwf A (build A r0 ScaledDiscreteOperator SumDiscreteOperator ProductDiscreteOperator e) = true /\
+  dshape A (build A r0 ScaledDiscreteOperator SumDiscreteOperator ProductDiscreteOperator e) =
+    (rows (sden A r0 radd rmul e), cols (sden A r0 radd rmul e)) /\
+  meq A (dense A r0 radd rmul (build A r0 ScaledDiscreteOperator SumDiscreteOperator ProductDiscreteOperator e))
+        (sden A r0 radd rmul e) /\
+  (forall x : M A, rows x = cols (sden A r0 radd rmul e) ->
+   meq A (matvec A r0 radd rmul (build A r0 ScaledDiscreteOperator SumDiscreteOperator ProductDiscreteOperator e) x)
+         (mmul A r0 radd rmul
+               (dense A r0 radd rmul (build A r0 ScaledDiscreteOperator SumDiscreteOperator ProductDiscreteOperator e)) x)).
+Proof. exact discrete_algebra. Qed.
+Print Assumptions C14_discrete_algebra.
+
+(* the shape guards of the discrete Sum / Product constructors accept exactly the conformable operands *)
+Theorem C14_discrete_shape_guards : forall (A : Type) (r0 : A) (a b : M A),
+  (dwf A (DN SumDiscreteOperator (DA a) (DA b) r0) = true <-> rows a = rows b /\ cols a = cols b) /\
+  (dwf A (DN ProductDiscreteOperator (DA a) (DA b) r0) = true <-> cols a = rows b).
+Proof. exact discrete_shape_guards. Qed.
+Print Assumptions C14_discrete_shape_guards.
+
+(* a real operator applied to a complex vector: A x = A re(x) + i A im(x), over the complex extension of any ring *)
+Theorem C14_real_times_complex : forall (A : Type) (r0 r1 : A) (radd rmul rsub : A -> A -> A) (ropp : A -> A),
+  ring_theory r0 r1 radd rmul rsub ropp eq -> forall (m : M A) (x : M (C A)) (i j : nat),
+  ent (mmul (C A) (c0 A r0) (cadd A radd) (cmul A radd rmul rsub) (embed A r0 m) x) i j =
+  ent (join A (mmul A r0 radd rmul m (re_part A x)) (mmul A r0 radd rmul m (im_part A x))) i j.
+Proof. exact real_times_complex. Qed.
+Print Assumptions C14_real_times_complex.
+
+(* blocked vectors: unpacking by the pieces' lengths inverts packing, and vice versa *)
+Theorem C14_blocked_pack_unpack : forall (X : Type),
+  (forall vs : list (list X), unpack X (map (@List.length X) vs) (pack X vs) = vs) /\
+  (forall dims (v : list X), List.length v = list_sum dims -> pack X (unpack X dims v) = v).
+Proof. exact (fun X => conj (unpack_pack X) (pack_unpack X)). Qed.
+Print Assumptions C14_blocked_pack_unpack.
+
+(* grid_function_list_from_projections of the current source recovers the projection pieces whenever it slices by the
+   dual spaces or the primal and dual dof counts coincide *)
+Theorem C14_blocked_unpack_projections : forall (X : Type) (dim : nat -> nat) (spaces duals : list nat)
+  (ps : list (list X)), map (@List.length X) ps = map dim duals ->
+  slice_projections_by = DimDual \/ map dim spaces = map dim duals ->
+  unpack_projections X slice_projections_by dim spaces duals (pack X ps) = ps.
+Proof. exact cur_unpack_projections. Qed.
+Print Assumptions C14_blocked_unpack_projections.
+
+(* pinned tree (slices by the primal dof counts): P1 range with 6 dofs and DP0 dual with 8 dofs lose two entries *)
+Theorem C14_blocked_unpack_projections_refuted :
+  exists (dim : nat -> nat) (spaces duals : list nat) (ps : list (list nat)),
+    map (@List.length nat) ps = map dim duals /\
+    unpack_projections nat DimSpace dim spaces duals (pack nat ps) <> ps.
+Proof. exact unpack_projections_refuted. Qed.
+Print Assumptions C14_blocked_unpack_projections_refuted.
